@@ -2,14 +2,12 @@
  * models/bn_entropy.c -- stand-in for crypto_entropy_read() in the Diffie-Hellman groups (C10, C20-DH):
  * "returns any 32 bytes, or fails".  This is what C11's contract of crypto_entropy_read guarantees a caller
  * (frame: buf[0 .. buflen) and the generator's own statics; result 0 or -1); the bytes are arbitrary here so that
- * every statement proved holds for EVERY blinding value.  The value delivered is remembered in g_dh_rand_val.
+ * every statement proved holds for EVERY blinding value.  The value delivered is remembered in g_bn.rand_val.
  * The buffer is registered as secret for the C20 taint tracking of models/bn_model.c.
  */
 #include <string.h>
 #include "bn_model.h"
 #include "crypto_entropy.h"
-
-int nondet_int(void);
 
 int
 crypto_entropy_read(uint8_t * buf, size_t buflen)
@@ -20,15 +18,15 @@ crypto_entropy_read(uint8_t * buf, size_t buflen)
 
 	__CPROVER_assert(buflen == 32, "MODEL-BOUND bn_entropy: 32-byte requests only");
 	__CPROVER_assume(buflen == 32);
-	g_dh_rand_calls++;
-	g_bn_secret_rand = buf;
+	g_bn.rand_calls++;
+	g_bn.secret_rand = buf;
 	memcpy(buf, fresh, 32);
-	if (nondet_int()) {
-		g_dh_rand_fail++;
+	if (bn_sched_fail()) {
+		g_bn.rand_fail++;
 		return (-1);
 	}
 	for (i = 0; i < 32; i++)
 		v = (v << 8) | (bn_val_t)fresh[i];
-	g_dh_rand_val = v;
+	g_bn.rand_val = v;
 	return (0);
 }
